@@ -366,12 +366,12 @@ func (a *BigInt) M__ipow__(other, modulus Object) (Object, error) {
 
 func (a *BigInt) M__lshift__(other Object) (Object, error) {
 	if b, ok := ConvertToBigInt(other); ok {
+		if (*big.Int)(b).Sign() < 0 {
+			return nil, negativeShiftCount
+		}
 		bb, err := b.GoInt()
 		if err != nil {
 			return nil, err
-		}
-		if bb < 0 {
-			return nil, negativeShiftCount
 		}
 		return (*BigInt)(new(big.Int).Lsh((*big.Int)(a), uint(bb))).MaybeInt(), nil
 	}
@@ -380,12 +380,12 @@ func (a *BigInt) M__lshift__(other Object) (Object, error) {
 
 func (a *BigInt) M__rlshift__(other Object) (Object, error) {
 	if b, ok := ConvertToBigInt(other); ok {
+		if (*big.Int)(a).Sign() < 0 {
+			return nil, negativeShiftCount
+		}
 		aa, err := a.GoInt()
 		if err != nil {
 			return nil, err
-		}
-		if aa < 0 {
-			return nil, negativeShiftCount
 		}
 		return (*BigInt)(new(big.Int).Lsh((*big.Int)(b), uint(aa))).MaybeInt(), nil
 	}
@@ -398,12 +398,12 @@ func (a *BigInt) M__ilshift__(other Object) (Object, error) {
 
 func (a *BigInt) M__rshift__(other Object) (Object, error) {
 	if b, ok := ConvertToBigInt(other); ok {
+		if (*big.Int)(b).Sign() < 0 {
+			return nil, negativeShiftCount
+		}
 		bb, err := b.GoInt()
 		if err != nil {
 			return nil, err
-		}
-		if bb < 0 {
-			return nil, negativeShiftCount
 		}
 		return (*BigInt)(new(big.Int).Rsh((*big.Int)(a), uint(bb))).MaybeInt(), nil
 	}
@@ -412,12 +412,12 @@ func (a *BigInt) M__rshift__(other Object) (Object, error) {
 
 func (a *BigInt) M__rrshift__(other Object) (Object, error) {
 	if b, ok := ConvertToBigInt(other); ok {
+		if (*big.Int)(a).Sign() < 0 {
+			return nil, negativeShiftCount
+		}
 		aa, err := a.GoInt()
 		if err != nil {
 			return nil, err
-		}
-		if aa < 0 {
-			return nil, negativeShiftCount
 		}
 		return (*BigInt)(new(big.Int).Rsh((*big.Int)(b), uint(aa))).MaybeInt(), nil
 	}
